@@ -45,6 +45,8 @@ pub enum Kind {
     Put(Key),
     Del(Key),
     PutMany,
+    /// put_many with the same id twice (different bytes, one stamp): the last one wins locally
+    PutManyDup,
     DelMany,
     /// concurrency block only: this node runs one repair cycle against the given node
     RepairFrom(usize),
@@ -335,6 +337,11 @@ where
                 .put_many(KS, vec![(1u64, payload(1)), (2u64, payload(2))], op.level)
                 .await
                 .map_err(|e| e.to_string()),
+            Kind::PutManyDup => node
+                .store
+                .put_many(KS, vec![(1u64, payload(1)), (1u64, payload(1))], op.level)
+                .await
+                .map_err(|e| e.to_string()),
             Kind::DelMany => node.store.del_many(KS, vec![1u64, 2u64], op.level).await.map_err(|e| e.to_string()),
             Kind::RepairFrom(_) => Err("repair clients exist in the concurrency block only".to_string()),
         };
@@ -469,7 +476,8 @@ where
                 }
                 count += 1;
                 match best.get(id) {
-                    Some((t, _)) if t >= ts => {},
+                    // (one put_many call stamps all its documents alike: the later one wins)
+                    Some((t, _)) if t > ts => {},
                     _ => {
                         best.insert(*id, (*ts, data.clone()));
                     },
@@ -579,6 +587,7 @@ pub fn run_concurrent(cfg: &ExecCfg, pair: &[OpSpec], prefix: &[usize]) -> (Run,
                 Kind::Put(k) => node.store.put(KS, k, payload(k), op.level).await.map_err(|e| e.to_string()),
                 Kind::Del(k) => node.store.del(KS, k, op.level).await.map_err(|e| e.to_string()),
                 Kind::PutMany => node.store.put_many(KS, vec![(1u64, payload(1)), (2u64, payload(2))], op.level).await.map_err(|e| e.to_string()),
+                Kind::PutManyDup => node.store.put_many(KS, vec![(1u64, payload(1)), (1u64, format!("prelude second write {pi}").into_bytes())], op.level).await.map_err(|e| e.to_string()),
                 Kind::DelMany => node.store.del_many(KS, vec![1u64, 2u64], op.level).await.map_err(|e| e.to_string()),
                 Kind::RepairFrom(_) => Ok(()),
             };
@@ -612,6 +621,7 @@ pub fn run_concurrent(cfg: &ExecCfg, pair: &[OpSpec], prefix: &[usize]) -> (Run,
                         Kind::Put(k) => store.put(KS, k, payload(k), op.level).await.map_err(|e| e.to_string()),
                         Kind::Del(k) => store.del(KS, k, op.level).await.map_err(|e| e.to_string()),
                         Kind::PutMany => store.put_many(KS, vec![(1u64, payload(1)), (2u64, payload(2))], op.level).await.map_err(|e| e.to_string()),
+                        Kind::PutManyDup => store.put_many(KS, vec![(1u64, payload(1)), (1u64, format!("concurrent second write {ci}").into_bytes())], op.level).await.map_err(|e| e.to_string()),
                         Kind::DelMany => store.del_many(KS, vec![1u64, 2u64], op.level).await.map_err(|e| e.to_string()),
                         Kind::RepairFrom(from) => {
                             let mut state = tracker.unwrap_or_default();
@@ -837,6 +847,17 @@ pub fn run(tier: Tier) -> i32 {
         jumpy3.allow_unreachable_node = true;
         jumpy3.time_jumps = true;
         blocks.push(Block { name: "N=2, 3 operations (thinned), one node unreachable, restarts, 55-minute jumps, <=2 deviations", cfg: jumpy3, histories: sequences(&al2_thin, 3), bound: 2 });
+        {
+            let mut al_dup = al2.clone();
+            for node in 0..2 {
+                for level in [Consistency::None, Consistency::All] {
+                    al_dup.push(OpSpec { node, kind: Kind::PutManyDup, level });
+                }
+            }
+            let mut hist: Vec<Vec<OpSpec>> = sequences(&al_dup, 1).into_iter().filter(|h| h.iter().any(|o| o.kind == Kind::PutManyDup)).collect();
+            hist.extend(sequences(&al_dup, 2).into_iter().filter(|h| h.iter().any(|o| o.kind == Kind::PutManyDup)));
+            blocks.push(Block { name: "N=2, 1-2 operations, at least one put_many carrying the same id twice, <=3 deviations", cfg: two(false), histories: hist, bound: 3 });
+        }
         let mut anti = two(false);
         anti.lose_all_direct = true;
         blocks.push(Block { name: "N=2, 3 operations, every direct message and batch lost (anti-entropy only), <=2 deviations", cfg: anti, histories: sequences(&al2, 3), bound: 2 });
@@ -888,6 +909,18 @@ pub fn run(tier: Tier) -> i32 {
         jumpy.time_jumps = true;
         let al2_none = op_alphabet(2, &[Consistency::None]);
         blocks.push(Block { name: "N=2, 2 operations (level None), one node unreachable until a chosen moment, restarts, 55-minute jumps between and after operations, <=3 deviations", cfg: jumpy, histories: sequences(&al2_none, 2), bound: 3 });
+        {
+            // histories containing a put_many that carries one id twice (added after C01-h)
+            let mut al_dup = al2.clone();
+            for node in 0..2 {
+                for level in [Consistency::None, Consistency::All] {
+                    al_dup.push(OpSpec { node, kind: Kind::PutManyDup, level });
+                }
+            }
+            let mut hist: Vec<Vec<OpSpec>> = sequences(&al_dup, 1).into_iter().filter(|h| h.iter().any(|o| o.kind == Kind::PutManyDup)).collect();
+            hist.extend(sequences(&al_dup, 2).into_iter().filter(|h| h.iter().any(|o| o.kind == Kind::PutManyDup)));
+            blocks.push(Block { name: "N=2, 1-2 operations, at least one put_many carrying the same id twice, <=2 deviations", cfg: two(false), histories: hist, bound: 2 });
+        }
         let mut anti = two(false);
         anti.allow_restart = false;
         anti.lose_all_direct = true;
@@ -1127,7 +1160,8 @@ pub fn replay(case: &J) -> i32 {
         .iter()
         .filter_map(|o| {
             let repairs = (0..n_nodes).flat_map(|a| (0..n_nodes).map(move |b| OpSpec { node: a, kind: Kind::RepairFrom(b), level: Consistency::None }));
-            al.iter().copied().chain(repairs).find(|a| op_json(a).as_str() == o.as_str())
+            let dups = (0..n_nodes).flat_map(|a| levels.iter().map(move |l| OpSpec { node: a, kind: Kind::PutManyDup, level: *l }));
+            al.iter().copied().chain(repairs).chain(dups).find(|a| op_json(a).as_str() == o.as_str())
         })
         .collect();
     let choices: Vec<usize> = case
